@@ -28,7 +28,9 @@ End == AllDone \/ Stuck \/ Lost
 Dead == ~End /\ ~ENABLED (\E t \in T : GStep(t))
 
 Flush == /\ End \/ Dead
-         /\ Dead \/ PrintT(<<"BEHAVIOUR", ToJson([kind |-> IF Lost THEN "lost" ELSE IF Stuck THEN "stuck" ELSE "complete",
+         \* (IF, not \/ : in an action TLC evaluates both disjuncts)
+         /\ IF Dead THEN TRUE
+            ELSE PrintT(<<"BEHAVIOUR", ToJson([kind |-> IF Lost THEN "lost" ELSE IF Stuck THEN "stuck" ELSE "complete",
                                             scen |-> scen, steps |-> hist, acked |-> acked,
                                             nt |-> Len(scen)])>>)
          /\ hist' = <<>>
